@@ -145,6 +145,8 @@ type GSelect struct {
 	Off      int      `json:"off,omitempty"`
 	Cnt      int      `json:"cnt,omitempty"`
 	Delete   bool     `json:"delete,omitempty"` // render as DELETE WHERE … [LIMIT]
+	// WhereOnly: the statement form without the SELECT keyword (`where …` means `select * where …`)
+	WhereOnly bool `json:"where_only,omitempty"`
 }
 
 func (q *GSelect) aliasMap() map[string]*GExpr {
@@ -159,6 +161,13 @@ func (q *GSelect) aliasMap() map[string]*GExpr {
 
 // fieldRef renders how ORDER BY / GROUP BY name field i.
 func (q *GSelect) fieldRef(i int, expanded bool) string {
+	if q.Star {
+		// `select *` announces the fields KEY and VALUE
+		if i == 0 {
+			return "key"
+		}
+		return "value"
+	}
 	f := q.Fields[i]
 	if f.Alias != "" && !expanded {
 		return f.Alias
@@ -182,10 +191,12 @@ func (q *GSelect) Render(expanded bool) string {
 		sb.WriteString("delete where ")
 		sb.WriteString(q.Where.Render(exp))
 	} else {
-		sb.WriteString("select ")
-		if q.Star {
-			sb.WriteString("*")
+		if q.WhereOnly && q.Star {
+			// nothing: the WHERE-only form
+		} else if q.Star {
+			sb.WriteString("select *")
 		} else {
+			sb.WriteString("select ")
 			for i, f := range q.Fields {
 				if i > 0 {
 					sb.WriteString(", ")
@@ -196,7 +207,11 @@ func (q *GSelect) Render(expanded bool) string {
 				}
 			}
 		}
-		sb.WriteString(" where ")
+		if q.WhereOnly && q.Star {
+			sb.WriteString("where ")
+		} else {
+			sb.WriteString(" where ")
+		}
 		sb.WriteString(q.Where.Render(exp))
 		if len(q.Order) > 0 {
 			sb.WriteString(" order by ")
@@ -355,8 +370,15 @@ func (g *Gen) S(d int, ctx string) *GExpr {
 			}
 		case 2:
 			if g.on("convfuncs") {
-				if r.Bool() {
+				switch r.Intn(5) {
+				case 0, 1:
 					return call(TS, "str", g.N(d-1, "arg"))
+				case 2:
+					// a function applied to a Boolean value (or a Boolean alias)
+					if a := g.tryAlias(TB, "arg"); a != nil {
+						return call(TS, "str", a)
+					}
+					return call(TS, "str", g.boolAtom(d-1))
 				}
 				return call(TS, "str", g.S(d-1, "arg"))
 			}
@@ -883,6 +905,15 @@ func (g *Gen) Select(wantAlias bool) *GSelect {
 			atom = bin(TB, "!=", &GExpr{Kind: "key", T: TS}, lit("~"))
 		}
 		q.Where = bin(TB, pick(r, []string{"&", "and"}), q.Where, atom)
+	}
+	if q.Star {
+		q.WhereOnly = r.Chance(0.4)
+		if g.on("order") && r.Chance(0.3) {
+			q.Order = append(q.Order, GOrder{Field: r.Intn(2), Desc: r.Bool(), Dir: r.Bool()})
+			if r.Chance(0.3) {
+				q.Order = append(q.Order, GOrder{Field: 1 - q.Order[0].Field, Desc: r.Bool()})
+			}
+		}
 	}
 	// ORDER BY over orderable fields
 	if g.on("order") && !q.Star && r.Chance(0.35) {
